@@ -24,9 +24,51 @@ import (
 var fset *token.FileSet
 var pkgs map[string]*packages.Package
 
+// extractionError: the source no longer has the syntactic shape a fact is read from
+type extractionError struct{ msg string }
+
 func die(format string, a ...any) {
+	panic(extractionError{fmt.Sprintf(format, a...)})
+}
+
+func fatal(format string, a ...any) {
 	fmt.Fprintf(os.Stderr, "translator: "+format+"\n", a...)
 	os.Exit(3)
+}
+
+// group runs one family of facts. When the source no longer has the shape the facts are read from (a refactoring, harmless or not),
+// the family's files are written from /verif/translator/expected (the facts of the unchanged tree) with a FALLBACK header, and the
+// failure is recorded: for that run the tie of those facts to the code is the correspondence check alone, which the caller reports.
+func group(out string, facts map[string]any, name string, files []string, fn func()) {
+	defer func() {
+		r := recover()
+		if r == nil {
+			return
+		}
+		ee, ok := r.(extractionError)
+		if !ok {
+			panic(r)
+		}
+		exp := expectedDir()
+		for _, f := range files {
+			b, err := os.ReadFile(filepath.Join(exp, f))
+			if err != nil {
+				fatal("%s (and no expected facts to fall back to: %v)", ee.msg, err)
+			}
+			hdr := "-- FALLBACK: extraction failed (" + strings.ReplaceAll(ee.msg, "\n", " ") + "); facts of the unchanged tree kept, tie by correspondence only\n"
+			if err := os.WriteFile(filepath.Join(out, f), append([]byte(hdr), b...), 0o644); err != nil {
+				fatal("%v", err)
+			}
+		}
+		fb, _ := facts["_fallback"].(map[string]string)
+		if fb == nil {
+			fb = map[string]string{}
+		}
+		fb[name] = ee.msg
+		facts["_fallback"] = fb
+		fmt.Fprintf(os.Stderr, "translator: FALLBACK %s: %s\n", name, ee.msg)
+	}()
+	fn()
 }
 
 func load(repo string) {
@@ -38,19 +80,19 @@ func load(repo string) {
 	}
 	ps, err := packages.Load(cfg, "./...")
 	if err != nil {
-		die("load: %v", err)
+		fatal("load: %v", err)
 	}
 	pkgs = map[string]*packages.Package{}
 	for _, p := range ps {
 		if len(p.Errors) > 0 {
-			die("package %s has errors: %v", p.PkgPath, p.Errors)
+			fatal("package %s has errors: %v", p.PkgPath, p.Errors)
 		}
 		pkgs[p.Name] = p
 		fset = p.Fset
 	}
 	for _, n := range []string{"webauthn", "cose", "tpm", "android", "fido"} {
 		if pkgs[n] == nil {
-			die("package %s not found", n)
+			fatal("package %s not found", n)
 		}
 	}
 }
@@ -269,14 +311,15 @@ func main() {
 	}
 	load(repo)
 	facts := map[string]any{}
-	emitCose(out, facts)
-	emitWebauthn(out, facts)
-	emitTpmAndroid(out, facts)
-	emitAsn1(out, facts)
-	emitEffects(out, facts)
+	group(out, facts, "cose", []string{"Cose.lean"}, func() { emitCose(out, facts) })
+	group(out, facts, "core", []string{"Core.lean"}, func() { emitWebauthn(out, facts) })
+	group(out, facts, "tpm-android", []string{"TpmAndroid.lean"}, func() { emitTpmAndroid(out, facts) })
+	group(out, facts, "asn1-schema", []string{"Asn1Schema.lean"}, func() { emitAsn1(out, facts) })
+	group(out, facts, "wire", []string{"Wire.lean"}, func() { emitWire(out, facts) })
+	group(out, facts, "effects", []string{"Effects.lean"}, func() { emitT8(out, facts) })
 	b, _ := json.MarshalIndent(facts, "", " ")
 	if err := os.WriteFile(filepath.Join(out, "facts.json"), b, 0o644); err != nil {
-		die("%v", err)
+		fatal("%v", err)
 	}
 }
 
